@@ -96,11 +96,10 @@ Print Assumptions C03_frag_size_capacity.
 Theorem C03_frag_sample : forall b d,
   sample_bounds b =
     (if rb_sample_not_memopt (memopt b) then (0, rb_upper_bound (full b) (cap b) (pos b))
-     else if rb_sample_full_branch (full b) then (1, cap b) else (0, pos b)) /\
+     else if full b then (1, cap b) else (0, pos b)) /\
   idx_of_draw b d =
     (if rb_sample_not_memopt (memopt b) then rb_base_index d
-     else if rb_sample_full_branch (full b) then rb_memopt_full_index d (pos b) (cap b)
-     else rb_memopt_notfull_index d).
+     else rb_memopt_index (full b) d d (pos b) (cap b)).
 Proof. exact (fun b d => conj (frag_sample_bounds b) (frag_idx_of_draw b d)). Qed.
 Print Assumptions C03_frag_sample.
 
